@@ -130,6 +130,9 @@ func (w *World) TypIssues(repo string) []Issue {
 		}
 		seen := map[string]bool{}
 		for _, e := range errs {
+			if strings.HasPrefix(strings.TrimSpace(e.Msg), "other declaration of") {
+				continue // secondary line of a redeclaration error
+			}
 			if strings.Contains(e.Msg, "overflows") && strings.Contains(e.Msg, "700") {
 				// a numeric placeholder does not respect the region its atom was narrowed to in this world;
 				// representability of kept bounds in the chosen sized type is not decided here
@@ -152,11 +155,13 @@ func normIdents(s string, w *World) string {
 	s = reConstVal.ReplaceAllString(s, "constant)")
 	s = rePtrAssign.ReplaceAllString(s, "cannot use <literal> as pointer value in assignment")
 	s = reUnknownField.ReplaceAllString(s, "unknown field (built from a default's key) in struct literal")
+	s = reDefIdent.ReplaceAllString(s, "<identifier of a definition>")
 	return s
 }
 
 var (
 	rePtrAssign    = regexp.MustCompile(`cannot use .* as \*\w+ value in assignment`)
+	reDefIdent     = regexp.MustCompile(`<identifier of name of definition for [^>]*>`)
 	reUnknownField = regexp.MustCompile(`unknown field (<default key>)+ in struct literal of type .*`)
 )
 
